@@ -162,34 +162,64 @@ pub fn run(args: &Args) -> i32 {
     run.cov("max_len", max_len as u64);
     run.cov("samples", samples);
     run.assume("reference: preferred family = IPv6 unless the preference is V4 (only an IPv4 local address bound)");
-    run.assume("start order of attempts is decided by composition with C11 (Q1) and a supplementary real-socket run");
+    run.assume("start order of attempts is decided by composition with C11 (Q1) and a supplementary real-socket run: every list of length 1..3 over two IPv4 and two IPv6 loopback listeners x every local-address binding {none, v4, v6, both} through TcpTransport::connect_to_addrs with one attempt at a time; the peer reached must be the address the statement puts first");
     run.finish()
 }
 
 fn composition_run() -> Result<u64, String> {
-    use hyperdriver::client::conn::transport::tcp::TcpTransportConfig;
     use hyperdriver::client::conn::transport::tcp::TcpTransport;
+    use hyperdriver::client::conn::transport::tcp::TcpTransportConfig;
+    use std::net::{Ipv4Addr, Ipv6Addr};
     let rt = tokio::runtime::Builder::new_current_thread().enable_all().build().map_err(|e| e.to_string())?;
     rt.block_on(async {
-        // two listeners: whichever is first in the list must be the peer we reach.
-        let l1 = tokio::net::TcpListener::bind("127.0.0.1:0").await.map_err(|e| e.to_string())?;
-        let l2 = tokio::net::TcpListener::bind("127.0.0.1:0").await.map_err(|e| e.to_string())?;
-        let a1 = l1.local_addr().unwrap();
-        let a2 = l2.local_addr().unwrap();
-        let mut n = 0;
-        for order in [[a1, a2], [a2, a1]] {
-            let mut cfg = TcpTransportConfig::default();
-            cfg.happy_eyeballs_concurrency = Some(1);
-            let transport: TcpTransport = TcpTransport::builder().with_config(cfg).with_gai_resolver().build();
-            let stream = transport
-                .connect_to_addrs(order.to_vec())
-                .await
-                .map_err(|e| format!("connect failed: {e}"))?;
-            let peer = stream.peer_addr().map_err(|e| e.to_string())?;
-            if peer != order[0] {
-                return Err(format!("order {order:?} connected to {peer}"));
+        // listeners on the IPv4 and (when the host has one) the IPv6 loopback: whichever address the
+        // statement puts first must be the peer we reach, for every local-address binding (the binding
+        // decides the preferred family: IPv6 unless only an IPv4 local address is bound)
+        let mut listeners = vec![];
+        for _ in 0..2 {
+            listeners.push(tokio::net::TcpListener::bind("127.0.0.1:0").await.map_err(|e| e.to_string())?);
+        }
+        let v6 = tokio::net::TcpListener::bind("[::1]:0").await.is_ok();
+        if v6 {
+            for _ in 0..2 {
+                listeners.push(tokio::net::TcpListener::bind("[::1]:0").await.map_err(|e| e.to_string())?);
             }
-            n += 1;
+        }
+        let addrs: Vec<SocketAddr> = listeners.iter().map(|l| l.local_addr().unwrap()).collect();
+        let bindings: Vec<(Option<Ipv4Addr>, Option<Ipv6Addr>)> = if v6 {
+            vec![(None, None), (Some(Ipv4Addr::LOCALHOST), None), (None, Some(Ipv6Addr::LOCALHOST)), (Some(Ipv4Addr::LOCALHOST), Some(Ipv6Addr::LOCALHOST))]
+        } else {
+            vec![(None, None), (Some(Ipv4Addr::LOCALHOST), None)]
+        };
+        let k = addrs.len();
+        let mut n = 0;
+        for (b4, b6) in bindings {
+            // the statement's rule, independent of the library's own mapping
+            let prefer = if b4.is_some() && b6.is_none() { Some(IpVersion::V4) } else { Some(IpVersion::V6) };
+            for len in 1..=3usize {
+                for code in 0..k.pow(len as u32) {
+                    let mut c = code;
+                    let list: Vec<SocketAddr> = (0..len)
+                        .map(|_| {
+                            let a = addrs[c % k];
+                            c /= k;
+                            a
+                        })
+                        .collect();
+                    let want = reference(&list, prefer, None);
+                    let mut cfg = TcpTransportConfig::default();
+                    cfg.happy_eyeballs_concurrency = Some(1);
+                    cfg.local_address_ipv4 = b4;
+                    cfg.local_address_ipv6 = b6;
+                    let transport: TcpTransport = TcpTransport::builder().with_config(cfg).with_gai_resolver().build();
+                    let stream = transport.connect_to_addrs(list.clone()).await.map_err(|e| format!("connect failed: {e} (list {list:?}, local addresses {b4:?}/{b6:?})"))?;
+                    let peer = stream.peer_addr().map_err(|e| e.to_string())?;
+                    if peer != want[0] {
+                        return Err(format!("list {list:?} with local addresses bound v4={b4:?} v6={b6:?}: connected to {peer}, the statement puts {} first", want[0]));
+                    }
+                    n += 1;
+                }
+            }
         }
         Ok(n)
     })
